@@ -2,7 +2,7 @@
 import itertools
 import numpy as np
 
-from checks.common import Unit, X_of, P, D
+from checks.common import Unit, X_of, P, D, mk_sep_penalty
 from checks import driver as DR
 from checks import steps as ST
 from checks.steps import dh
@@ -49,7 +49,7 @@ def u_f24(h):
     h.ensure('finite', h.is_finite(w[0]))
 
 
-def u_multitask(h, X, fit_intercept, sparse, T=2):
+def u_multitask(h, X, fit_intercept, sparse, T=2, max_iter=2):
     import skglm.solvers as S
     Pm, Dm = P(), D()
     Xc = X_of(X)
@@ -68,13 +68,58 @@ def u_multitask(h, X, fit_intercept, sparse, T=2):
     df = h.datafit(Dm.QuadraticMultiTask)
     Xd = h.const(Xc)
     Xa = h.csc(Xd) if sparse else Xd
-    sol = S.MultiTaskBCD(max_iter=2, max_epochs=1, p0=1, tol=tol, fit_intercept=fit_intercept, use_acc=False)
+    sol = S.MultiTaskBCD(max_iter=max_iter, max_epochs=1, p0=1, tol=tol, fit_intercept=fit_intercept, use_acc=False)
     W, obj, sc = sol._solve(Xa, Y, df, pen)
     h.ensure('shape', W.shape == (p + (1 if fit_intercept else 0), T))
     for j in range(W.shape[0]):
         for t in range(T):
             h.observe('W%d_%d' % (j, t), W[j, t])
             h.ensure('finite[%d,%d]' % (j, t), h.is_finite(W[j, t]))
+
+
+def u_ws_kernel(h, penalty, ws, layout=None):
+    """penalty.subdiff_distance / generalized_support on a working set that is a strict subset of the features (groups):
+    the ws-restricted gradient is addressed by ws POSITION, w by FEATURE index; no out-of-range read, and the
+    restricted scores are the full-problem scores at the ws positions"""
+    p = 3
+    if layout is None:
+        pen, meta = mk_sep_penalty(h, penalty, p=p, concrete_hyper=True)
+        n_units = p
+    else:
+        df_, pen, meta = DR.mk_group_objects(h, 'QuadraticGroup', penalty.rstrip('+'), layout, positive=penalty.endswith('+'))
+        gp = np.cumsum([0] + [len(g) for g in layout])
+        gi = np.array([i for g in layout for i in g])
+        n_units = len(layout)
+    w = h.vec('w', p)
+    if meta.get('positive') and not meta.get('group'):
+        pass                                                  # infeasible w is a legal argument (score = inf)
+    ws = np.array(ws, dtype=np.int64)
+    if meta.get('group') or layout is not None:
+        sizes = [int(gp[g + 1] - gp[g]) for g in range(n_units)]
+        gfull = h.vec('g', p)
+        # ws-restricted gradient: concatenation of the groups' blocks in ws order
+        g_ws = []
+        for g in ws:
+            g_ws += [gfull[int(j)] for j in gi[gp[g]:gp[g + 1]]]
+        g_all = []
+        for g in range(n_units):
+            g_all += [gfull[int(j)] for j in gi[gp[g]:gp[g + 1]]]
+        mk = (lambda v: h.arr(v)) if h.mode == 'sym' else (lambda v: np.array(v, dtype=float))
+        r_ws = pen.subdiff_distance(w, mk(g_ws), ws)
+        r_all = pen.subdiff_distance(w, mk(g_all), np.arange(n_units))
+    else:
+        gfull = h.vec('g', p)
+        mk = (lambda v: h.arr(v)) if h.mode == 'sym' else (lambda v: np.array(v, dtype=float))
+        r_ws = pen.subdiff_distance(w, mk([gfull[int(j)] for j in ws]), ws)
+        r_all = pen.subdiff_distance(w, mk([gfull[j] for j in range(p)]), np.arange(p))
+    h.observe('w0', w[0])
+    h.ensure('score-length', len(r_ws) == len(ws))
+    for idx, j in enumerate(ws):
+        a, b = r_ws[idx], r_all[int(j)]
+        if _isinf(a) or _isinf(b):
+            h.ensure('restricted-score-is-full-score[%d]' % idx, bool(_isinf(a) and _isinf(b)))
+        else:
+            h.ensure('restricted-score-is-full-score[%d]' % idx, h.eq(a, b))
 
 
 def units(tier):
@@ -111,11 +156,26 @@ def units(tier):
         us.append(Unit('C20/D/run[%s]' % cid, u_run, dict(cfg=c), wall_s=150, max_paths=3000, timeout_ms=8000,
                        patched=c['solver'] in ('ProxNewton', 'GroupProxNewton')))
     for X, fi, sparse, T in itertools.product(['corr33', 'corr32'], (False, True), (False, True), (1, 2)):
-        if q and dh((X, fi, sparse, T)) % 2:
-            continue
         us.append(Unit('C20/D/multitask[X=%s,intercept=%s,sparse=%s,T=%d]' % (X, fi, sparse, T), u_multitask,
-                       dict(X=X, fit_intercept=fi, sparse=sparse, T=T), wall_s=150, timeout_ms=8000))
+                       dict(X=X, fit_intercept=fi, sparse=sparse, T=T, max_iter=1 if q else 2), wall_s=40 if q else 150,
+                       timeout_ms=3000 if q else 8000))
     us.append(Unit('C20/D/anderson-cd-with-group-datafit', u_f24, {}, wall_s=60))
+    for pen in ['L1', 'L1+', 'L1_plus_L2', 'L1_plus_L2+', 'WeightedL1', 'WeightedL1+', 'MCPenalty', 'MCPenalty+', 'WeightedMCPenalty',
+                'SCAD', 'IndicatorBox', 'PositiveConstraint', 'L0_5', 'L2_3', 'LogSumPenalty']:
+        for ws in ([2], [1, 2], [0, 2]):
+            us.append(Unit('C20/K/subdiff-distance-on-working-set[%s,ws=%s]' % (pen, ws), u_ws_kernel, dict(penalty=pen, ws=ws),
+                           wall_s=60, timeout_ms=8000))
+    # Cox: the tie-group index arrays (H_indptr / H_indices, CSC-like) are walked by _A_dot_vec / _AT_dot_vec
+    from checks import c06
+    for tm, sv in (([0, 1, 0], [1, 0, 1]), ([1, 1, 0], [1, 1, 0]), ([0, 0, 1], [1, 0, 1]), ([2, 0, 2, 0], [1, 1, 1, 0])):
+        for efron in (False, True):
+            us.append(Unit('C20/K/Cox-kernels[tm=%s,s=%s,efron=%s]' % (tm, sv, efron), c06.u_cox,
+                           dict(tm=tm, s=sv, efron=efron, sparse_pattern=[[1, 0], [0, 1], [1, 1], [1, 1]][:len(tm)]), wall_s=60))
+    for pen, (lay, wss) in itertools.product(['WeightedGroupL2', 'WeightedGroupL2+'],      # (WeightedL1GroupL2 has no subdiff_distance)
+                                             [([[0, 2], [1]], ([1],)), ([[0], [1, 2]], ([1],)), ([[0], [1], [2]], ([2], [0, 2]))]):
+        for ws in wss:
+            us.append(Unit('C20/K/subdiff-distance-on-working-set[%s,layout=%s,ws=%s]' % (pen, lay, ws), u_ws_kernel,
+                           dict(penalty=pen, ws=ws, layout=lay), wall_s=60, timeout_ms=8000))
     return us
 
 
